@@ -62,26 +62,35 @@ func (f *FaultFS) after(site string, crash bool) {
 
 // Stat implements Storage.
 func (f *FaultFS) Stat(path string) (os.FileInfo, error) {
-	if err, _ := f.gate("fs.Stat", path, path); err != nil {
+	err, ca := f.gate("fs.Stat", path, path)
+	if err != nil {
 		return nil, err
 	}
-	return f.FS.Stat(path)
+	r, rerr := f.FS.Stat(path)
+	f.after("fs.Stat", ca)
+	return r, rerr
 }
 
 // Exists implements Storage.
 func (f *FaultFS) Exists(path string) (bool, error) {
-	if err, _ := f.gate("fs.Exists", path, path); err != nil {
+	err, ca := f.gate("fs.Exists", path, path)
+	if err != nil {
 		return false, err
 	}
-	return f.FS.Exists(path)
+	r, rerr := f.FS.Exists(path)
+	f.after("fs.Exists", ca)
+	return r, rerr
 }
 
 // ReadDir implements Storage.
 func (f *FaultFS) ReadDir(path string) ([]os.FileInfo, error) {
-	if err, _ := f.gate("fs.ReadDir", path, path); err != nil {
+	err, ca := f.gate("fs.ReadDir", path, path)
+	if err != nil {
 		return nil, err
 	}
-	return f.FS.ReadDir(path)
+	r, rerr := f.FS.ReadDir(path)
+	f.after("fs.ReadDir", ca)
+	return r, rerr
 }
 
 // MkdirAll implements Storage.
@@ -170,10 +179,13 @@ func (f *FaultFS) partLen(src string, permille int64) int {
 
 // ReadFile implements Storage.
 func (f *FaultFS) ReadFile(path string) ([]byte, error) {
-	if err, _ := f.gate("fs.ReadFile", path, path); err != nil {
+	err, ca := f.gate("fs.ReadFile", path, path)
+	if err != nil {
 		return nil, err
 	}
-	return f.FS.ReadFile(path)
+	r, rerr := f.FS.ReadFile(path)
+	f.after("fs.ReadFile", ca)
+	return r, rerr
 }
 
 // WriteFile implements Storage.
